@@ -1033,7 +1033,7 @@ func (r *tRun) unwind() {
 			c := c
 			go func() {
 				for {
-					if _, err := c.rw.Read(context.Background()); err != nil {
+					if _, err := c.rw.Read(r.root); err != nil { // root: an unregistered connection is never closed
 						return
 					}
 				}
